@@ -161,6 +161,17 @@ def when_holds(when, f, m):
         kinds = [s.split(":")[0] for s in desc.get("sos", [])]
         if when["so"] not in kinds:
             return False
+    if "so_not_prefix" in when:
+        # some shared object of that kind is attached to a set of processors that is not {0..k-1}
+        hit = False
+        for i, sname in enumerate(desc.get("sos", [])):
+            if sname.split(":")[0] != when["so_not_prefix"]:
+                continue
+            att = [pi for pi, p in enumerate(desc.get("procs", [])) if i in p.get("sos", [])]
+            if att != list(range(len(att))):
+                hit = True
+        if not hit:
+            return False
     if "flavor" in when and spec.get("flavor") != when["flavor"]:
         return False
     if "nilsimbox" in when and bool(spec.get("nilsimbox")) != when["nilsimbox"]:
